@@ -762,6 +762,21 @@ def _asarray(obj, dtype=None, *a, **k):
     return _np.asarray(obj, dtype=dtype, *a, **k)
 
 
+def _log(x, *a, **k):
+    from . import transc
+    return elementwise(transc.slog, x)
+
+
+def _exp(x, *a, **k):
+    from . import transc
+    return elementwise(transc.sexp, x)
+
+
+def _nan_to_num(x, *a, **k):
+    from . import transc
+    return elementwise(transc.nan_to_num, x)
+
+
 def _isnan(x, *a, **k):
     return elementwise(lambda v: False, x)
 
@@ -893,7 +908,7 @@ _INTERCEPTS = dict(
     ceil=_ceil, sqrt=_sqrt, sign=_sign, abs=_abs, absolute=_abs, square=_square, where=_where,
     nonzero=_nonzero, argwhere=_argwhere, min=_amin, max=_amax, amin=_amin, amax=_amax,
     any=_any, all=_all, std=_std, digitize=_digitize, histogram=_histogram,
-    bincount=_bincount, unique=_unique, isnan=_isnan,
+    bincount=_bincount, unique=_unique, isnan=_isnan, log=_log, exp=_exp, nan_to_num=_nan_to_num,
 )
 # creation functions: object arrays whenever a harness is active
 _CREATION = dict(zeros=_zeros, ones=_ones, empty=_empty, full=_full,
